@@ -334,7 +334,9 @@ type verifWorld struct {
 	sbInfo  interop.SandboxInfoFromInit
 	reqBuf  *bytes.Buffer
 	lastBody map[string]string
-	rtBodies, rtArns, rtResponses []string
+	rtBodies, rtArns, rtResponses, rtStatuses []string
+	rtPlan    [][]int
+	rtStarted int
 	bodies   map[string][]string
 }
 
@@ -375,6 +377,12 @@ func (w *verifWorld) countPrefix(who, what, argPrefix string) int {
 }
 
 func newVerifWorld(entries []verifDirEntry, standalone bool, initCaching bool) *verifWorld {
+	return newVerifWorldWith(nil, entries, standalone, initCaching)
+}
+
+// newVerifWorldWith: iop == nil uses the harness' fake interop server; otherwise the given
+// (real) interop server is wired in, as rapidcore's sandbox builder does.
+func newVerifWorldWith(iop interop.Server, entries []verifDirEntry, standalone bool, initCaching bool) *verifWorld {
 	w := &verifWorld{lastBody: map[string]string{}, bodies: map[string][]string{}}
 	verifDaemon("watchEvents")
 	extensions.Enable()
@@ -397,8 +405,11 @@ func newVerifWorld(entries []verifDirEntry, standalone bool, initCaching bool) *
 	credentialsService := core.NewCredentialsService()
 	appctx.StoreInitType(appCtx, initCaching)
 
-	w.iop = &verifInterop{}
-	appctx.StoreInteropServer(appCtx, w.iop)
+	if iop == nil {
+		w.iop = &verifInterop{}
+		iop = w.iop
+	}
+	appctx.StoreInteropServer(appCtx, iop)
 	w.sup = &verifSupervisor{w: w, events: make(chan supvmodel.Event, 8), procs: map[string]*verifProc{}, execFail: map[string]bool{}}
 
 	w.ctx = &rapidContext{
@@ -415,7 +426,7 @@ func newVerifWorld(entries []verifDirEntry, standalone bool, initCaching bool) *
 		logsSubscriptionAPI:      &telemetry.NoOpSubscriptionAPI{},
 		telemetrySubscriptionAPI: &telemetry.NoOpSubscriptionAPI{},
 		logsEgressAPI:            &telemetry.NoOpLogsEgressAPI{},
-		interopServer:            w.iop,
+		interopServer:            iop,
 		xray:                     &telemetry.NoOpTracer{},
 		standaloneMode:           standalone,
 		eventsAPI:                &verifEvents{w: w},
@@ -621,3 +632,138 @@ func (w *verifWorld) doReset(reason string, timeoutMs int64) {
 }
 
 var _ = model.AgentEvent{}
+
+
+// ---------------------------------------------------------------------------
+// exported surface for the FULL composition assembled in package rapidcore
+// (real rapidcore.Server + real SandboxContext on top of this world)
+
+type VerifWorld = verifWorld
+
+// runtime behaviours per dispatched invocation
+const (
+	VbRespond      = iota // post the response, go back to next
+	VbError               // post an error, go back to next
+	VbStall               // receive the invocation and never answer
+	VbExit                // receive the invocation and exit (status 1) without answering
+	VbRespondExit         // post the response, then exit instead of polling again
+	VbStaleThenOK         // post a response for a stale id (must be refused), then the right one
+	VbExitEarly           // exit before the first next
+	VbInitError           // report init/error, then exit
+	VbDoubleRespond       // post the response twice (second must be refused)
+)
+
+func VerifNewWorld(iop interop.Server, nExt int, subs []string) *VerifWorld {
+	entries := []verifDirEntry{{name: "subdir", dir: true}}
+	events := map[string][]string{}
+	for i := 0; i < nExt; i++ {
+		n := fmt.Sprintf("ext%d", i)
+		entries = append(entries, verifDirEntry{name: n})
+		switch subs[i] {
+		case "I":
+			events[n] = []string{"INVOKE"}
+		case "S":
+			events[n] = []string{"SHUTDOWN"}
+		case "IS":
+			events[n] = []string{"INVOKE", "SHUTDOWN"}
+		default:
+			events[n] = []string{}
+		}
+	}
+	w := newVerifWorldWith(iop, entries, true, false)
+	w.sup.extScript = w.healthyExt(events, 8)
+	w.sup.runtimeScript = w.plannedRuntime()
+	return w
+}
+
+func (w *verifWorld) RapidCtx() interop.RapidContext { return w.ctx }
+func (w *verifWorld) StateGetter() interop.InternalStateGetter {
+	return w.rs.GetInternalStateDescriptor(w.appCtx)
+}
+func (w *verifWorld) InitRequest() *interop.Init        { return w.initReq }
+func (w *verifWorld) Count(who, what, arg string) int     { return w.count(who, what, arg) }
+func (w *verifWorld) CountPrefix(who, what, p string) int { return w.countPrefix(who, what, p) }
+func (w *verifWorld) First(who, what, arg string) int     { return w.first(who, what, arg) }
+func (w *verifWorld) Seq() int                            { return w.seq }
+func (w *verifWorld) Note(who, what, arg string) int      { return w.note(who, what, arg) }
+func (w *verifWorld) RuntimeBodies() []string             { return w.rtBodies }
+func (w *verifWorld) RuntimeResponses() []string          { return w.rtResponses }
+func (w *verifWorld) Statuses() []string                  { return w.rtStatuses }
+
+// LastSeq returns the sequence number of the last matching entry (0 = none).
+func (w *verifWorld) LastSeq(who, what, argPrefix string) int {
+	r := 0
+	for _, e := range w.log {
+		if (who == "" || e.who == who) && e.what == what && strings.HasPrefix(e.arg, argPrefix) {
+			r = e.seq
+		}
+	}
+	return r
+}
+
+// SetPlan: plan[k] lists the behaviours of the k-th started runtime process, one per invocation it receives.
+func (w *verifWorld) SetPlan(plan [][]int) { w.rtPlan = plan }
+
+func (w *verifWorld) plannedRuntime() func(p *verifProc) {
+	return func(p *verifProc) {
+		who := p.name
+		k := w.rtStarted
+		w.rtStarted++
+		var plan []int
+		if k < len(w.rtPlan) {
+			plan = w.rtPlan[k]
+		}
+		if len(plan) > 0 && plan[0] == VbExitEarly {
+			w.sup.exit(p, 1, 0)
+			return
+		}
+		if len(plan) > 0 && plan[0] == VbInitError {
+			w.runtimeInitError(who, "Runtime.InitBoom", []byte(`{"errorMessage":"boom","errorType":"Runtime.InitBoom"}`))
+			w.sup.exit(p, 1, 0)
+			return
+		}
+		for i := 0; ; i++ {
+			if p.dead {
+				return
+			}
+			rec := w.runtimeNext(who)
+			if p.dead || rec.status != 200 {
+				return
+			}
+			id := rec.hdr.Get("Lambda-Runtime-Aws-Request-Id")
+			w.note(who, "got-invoke", id)
+			w.rtBodies = append(w.rtBodies, string(rec.body))
+			w.rtArns = append(w.rtArns, rec.hdr.Get("Lambda-Runtime-Invoked-Function-Arn"))
+			b := VbRespond
+			if i < len(plan) {
+				b = plan[i]
+			}
+			resp := verifNondetBytes("runtime payload")
+			verifAssume(len(resp) <= 6*1024*1024+100)
+			w.rtResponses = append(w.rtResponses, string(resp))
+			st := func(r *verifRec) { w.rtStatuses = append(w.rtStatuses, fmt.Sprint(r.status)) }
+			switch b {
+			case VbRespond:
+				st(w.runtimeResponse(who, id, resp))
+			case VbError:
+				st(w.runtimeError(who, id, "Function.Oops", resp))
+			case VbStall:
+				verifBlockForever()
+				return
+			case VbExit:
+				w.sup.exit(p, 1, 0)
+				return
+			case VbRespondExit:
+				st(w.runtimeResponse(who, id, resp))
+				w.sup.exit(p, 1, 0)
+				return
+			case VbStaleThenOK:
+				st(w.runtimeResponse(who, "stale-"+id, []byte("stale-payload")))
+				st(w.runtimeResponse(who, id, resp))
+			case VbDoubleRespond:
+				st(w.runtimeResponse(who, id, resp))
+				st(w.runtimeResponse(who, id, []byte("second-payload")))
+			}
+		}
+	}
+}
